@@ -183,6 +183,7 @@ def run(ctx):
     ctx.guarded("R-C20-passthrough", passthrough, ctx, prog)
     ctx.guarded("R-C20-props", publish_props, ctx, prog)
     ctx.guarded("R-C20-alias", alias_stands_for_one_topic, ctx, prog)
+    ctx.guarded("R-C20-alias", alias_resolved_on_receipt, ctx, prog)
 
 
 def alias_stands_for_one_topic(ctx, prog):
@@ -354,3 +355,27 @@ def passthrough(ctx, prog):
         ctx.ok(rule, body.id, "topic_alias.take() dominates every Data::append", site=body.loc(body.blocks[user]["t"].get("sp")))
     else:
         ctx.violation(rule, body.id, "topic alias cleared too late", "a path stores the publish before its topic_alias property is cleared", site=body.fn_loc())
+
+
+def alias_resolved_on_receipt(ctx, prog):
+    """'with the same topic': a publisher's topic alias denotes the topic it was mapped to when the PUBLISH was
+    RECEIVED. QoS 0/1 publishes go straight to append_to_commitlog, which resolves it; a QoS 2 publish is parked in the
+    AckLog until its PUBREL — its alias has to be resolved (validate_and_set_topic_alias) before it is parked, not when the
+    release arrives and the alias may have been re-pointed."""
+    rule = "R-C20-alias"
+    body = prog.one(r"^router::routing::Router::handle_device_payload$")
+    parks = [bb for bb, t in body.calls() if callee_path(t).endswith("AckLog::pubrec") and not body.is_cleanup(bb)]
+    if len(parks) != 1:
+        raise AnchorMissing("handle_device_payload: expected one AckLog::pubrec call (QoS 2 publish parked), found %d" % len(parks))
+    resolves = [bb for bb, t in body.calls() if callee_path(t).endswith("routing::validate_and_set_topic_alias") and not body.is_cleanup(bb)]
+    # the resolution must lie on the way INTO the park call within the same iteration: it dominates nothing else
+    # than what follows it, so ask that some resolve call reaches the park without passing the packet switch again
+    from .c06 import packet_switch
+    sw0 = packet_switch(body)
+    same_iter = [bb for bb in resolves if parks[0] in reachable(body, (bb,), avoid_blocks=(sw0[0],))]
+    if same_iter:
+        ctx.ok(rule, body.id, "a QoS 2 publish's topic alias is resolved before the publish is parked for its release", site=body.loc(body.blocks[same_iter[0]]["t"].get("sp")))
+    else:
+        ctx.violation(rule, body.id, "QoS 2 alias resolved at release time",
+                      "a QoS 2 PUBLISH is parked (AckLog::pubrec) with its topic alias unresolved; append_to_commitlog resolves it when the PUBREL arrives: if the publisher re-points the alias in between, the message is delivered under the wrong topic "
+                      "(and an alias the QoS 2 publish itself establishes does not exist for the publishes that follow it)", site=body.loc(body.blocks[parks[0]]["t"].get("sp")))
